@@ -1777,10 +1777,288 @@ fn tls_config_table(rep: &mut SearchReport) -> Result<(), String> {
     Ok(())
 }
 
+
+// ---------------------------------------------------------------------------------------------
+// authorization through the C ABI: the callback of the SAME kind sees the unit id, the range or
+// index and the role of the request unchanged, and its answer is what the client gets
+
+type AuthLog = Arc<Mutex<Vec<(String, u8, u16, u16, String)>>>;
+
+fn auth_record(name: &str, unit: u8, start: u16, count: u16, role: *const std::os::raw::c_char, ctx: *mut c_void) -> c_int {
+    let role = if role.is_null() {
+        "<null>".to_string()
+    } else {
+        unsafe { std::ffi::CStr::from_ptr(role) }.to_string_lossy().into_owned()
+    };
+    unsafe {
+        let log = &*(ctx as *const Mutex<Vec<(String, u8, u16, u16, String)>>);
+        if let Ok(mut g) = log.lock() {
+            g.push((name.to_string(), unit, start, count, role));
+        }
+    }
+    if start % 3 == 2 {
+        ffi::Authorization::Deny.into()
+    } else {
+        ffi::Authorization::Allow.into()
+    }
+}
+extern "C" fn az_read_coils(u: u8, r: ffi::AddressRange, role: *const std::os::raw::c_char, ctx: *mut c_void) -> c_int {
+    auth_record("read_coils", u, r.start, r.count, role, ctx)
+}
+extern "C" fn az_read_discrete(u: u8, r: ffi::AddressRange, role: *const std::os::raw::c_char, ctx: *mut c_void) -> c_int {
+    auth_record("read_discrete_inputs", u, r.start, r.count, role, ctx)
+}
+extern "C" fn az_read_holding(u: u8, r: ffi::AddressRange, role: *const std::os::raw::c_char, ctx: *mut c_void) -> c_int {
+    auth_record("read_holding_registers", u, r.start, r.count, role, ctx)
+}
+extern "C" fn az_read_input(u: u8, r: ffi::AddressRange, role: *const std::os::raw::c_char, ctx: *mut c_void) -> c_int {
+    auth_record("read_input_registers", u, r.start, r.count, role, ctx)
+}
+extern "C" fn az_write_coil(u: u8, i: u16, role: *const std::os::raw::c_char, ctx: *mut c_void) -> c_int {
+    auth_record("write_single_coil", u, i, 0, role, ctx)
+}
+extern "C" fn az_write_reg(u: u8, i: u16, role: *const std::os::raw::c_char, ctx: *mut c_void) -> c_int {
+    auth_record("write_single_register", u, i, 0, role, ctx)
+}
+extern "C" fn az_write_coils(u: u8, r: ffi::AddressRange, role: *const std::os::raw::c_char, ctx: *mut c_void) -> c_int {
+    auth_record("write_multiple_coils", u, r.start, r.count, role, ctx)
+}
+extern "C" fn az_write_regs(u: u8, r: ffi::AddressRange, role: *const std::os::raw::c_char, ctx: *mut c_void) -> c_int {
+    auth_record("write_multiple_registers", u, r.start, r.count, role, ctx)
+}
+extern "C" fn az_db(db: *mut rodbus_ffi::Database, _ctx: *mut c_void) {
+    unsafe {
+        for i in 0..64u16 {
+            ffi::rodbus_database_add_coil(db, i, false);
+            ffi::rodbus_database_add_discrete_input(db, i, i % 2 == 0);
+            ffi::rodbus_database_add_holding_register(db, i, i);
+            ffi::rodbus_database_add_input_register(db, i, 1000 + i);
+        }
+    }
+}
+fn az_ok() -> ffi::WriteResult {
+    ffi::WriteResultFields {
+        success: true,
+        exception: ffi::ModbusException::IllegalFunction,
+        raw_exception: 0,
+    }
+    .into()
+}
+extern "C" fn azw_coil(_i: u16, _v: bool, _db: *mut rodbus_ffi::Database, _ctx: *mut c_void) -> ffi::WriteResult {
+    az_ok()
+}
+extern "C" fn azw_reg(_i: u16, _v: u16, _db: *mut rodbus_ffi::Database, _ctx: *mut c_void) -> ffi::WriteResult {
+    az_ok()
+}
+extern "C" fn azw_coils(_s: u16, _it: *mut rodbus_ffi::BitValueIterator<'_>, _db: *mut rodbus_ffi::Database, _ctx: *mut c_void) -> ffi::WriteResult {
+    az_ok()
+}
+extern "C" fn azw_regs(_s: u16, _it: *mut rodbus_ffi::RegisterValueIterator<'_>, _db: *mut rodbus_ffi::Database, _ctx: *mut c_void) -> ffi::WriteResult {
+    az_ok()
+}
+
+fn authz_table(rep: &mut SearchReport, seed: u64) -> Result<(), String> {
+    use crate::net::c09::{path, peer_client_config, Offer};
+    use tokio::io::{AsyncReadExt, AsyncWriteExt};
+    let rt = crate::net::rt(2);
+    let frt = FfiRuntime::new(2)?;
+    let log: AuthLog = Default::default();
+    let p = |name: &str, ext: &str| cstr(path(name, ext).to_str().unwrap());
+    let mut server: *mut rodbus_ffi::Server = std::ptr::null_mut();
+    let mut port = 0u16;
+    unsafe {
+        let filter = ffi::rodbus_address_filter_any();
+        for _ in 0..8 {
+            let map = ffi::rodbus_device_map_create();
+            for unit in [1u8, 7] {
+                let handler = ffi::WriteHandler {
+                    write_single_coil: Some(azw_coil),
+                    write_single_register: Some(azw_reg),
+                    write_multiple_coils: Some(azw_coils),
+                    write_multiple_registers: Some(azw_regs),
+                    on_destroy: Some(h_destroy),
+                    ctx: std::ptr::null_mut(),
+                };
+                let cfgcb = ffi::DatabaseCallback {
+                    callback: Some(az_db),
+                    on_destroy: Some(h_destroy),
+                    ctx: std::ptr::null_mut(),
+                };
+                ffi::rodbus_device_map_add_endpoint(map, unit, handler, cfgcb);
+            }
+            port = free_port();
+            let ip = cstr("127.0.0.1");
+            let peer_c = p("ca1", "pem");
+            let local_c = p("server_ok", "pem");
+            let key_c = p("server_ok", "key");
+            let pw = cstr("");
+            let tls_cfg = ffi::TlsServerConfig {
+                peer_cert_path: peer_c.as_ptr(),
+                local_cert_path: local_c.as_ptr(),
+                private_key_path: key_c.as_ptr(),
+                password: pw.as_ptr(),
+                min_tls_version: ffi::MinTlsVersion::V12.into(),
+                certificate_mode: ffi::CertificateMode::AuthorityBased.into(),
+            };
+            let auth = ffi::AuthorizationHandler {
+                read_coils: Some(az_read_coils),
+                read_discrete_inputs: Some(az_read_discrete),
+                read_holding_registers: Some(az_read_holding),
+                read_input_registers: Some(az_read_input),
+                write_single_coil: Some(az_write_coil),
+                write_single_register: Some(az_write_reg),
+                write_multiple_coils: Some(az_write_coils),
+                write_multiple_registers: Some(az_write_regs),
+                on_destroy: Some(h_destroy),
+                ctx: Arc::as_ptr(&log) as *mut c_void,
+            };
+            let rc = ffi::rodbus_server_create_tls_with_authz(frt.0, ip.as_ptr(), port, filter, 4, map, tls_cfg, auth, decode_level(0, 0, 0), &mut server);
+            ffi::rodbus_device_map_destroy(map);
+            if rc == 0 && !server.is_null() {
+                break;
+            }
+        }
+        ffi::rodbus_address_filter_destroy(filter);
+    }
+    if server.is_null() {
+        return Err("INFRA: could not create the C-ABI TLS server with authorization".to_string());
+    }
+    let role = "Bediener Ölförderung 操作员";
+    let mut x = seed | 1;
+    let mut next = move || {
+        x ^= x << 13;
+        x ^= x >> 7;
+        x ^= x << 17;
+        x
+    };
+    // (callback name, unit, start, count-or-0, pdu)
+    let mut rows: Vec<(&str, u8, u16, u16, Vec<u8>)> = Vec::new();
+    for round in 0..6 {
+        for kind in 0..8u8 {
+            let unit = if next() % 2 == 0 { 1u8 } else { 7 };
+            let start = if round < 3 { round as u16 } else { (next() % 40) as u16 };
+            let count = 1 + (next() % 9) as u16;
+            let be = |v: u16| [(v >> 8) as u8, v as u8];
+            let (name, c, pdu): (&str, u16, Vec<u8>) = match kind {
+                0 => ("read_coils", count, [vec![1], be(start).to_vec(), be(count).to_vec()].concat()),
+                1 => ("read_discrete_inputs", count, [vec![2], be(start).to_vec(), be(count).to_vec()].concat()),
+                2 => ("read_holding_registers", count, [vec![3], be(start).to_vec(), be(count).to_vec()].concat()),
+                3 => ("read_input_registers", count, [vec![4], be(start).to_vec(), be(count).to_vec()].concat()),
+                4 => ("write_single_coil", 0, [vec![5], be(start).to_vec(), vec![0xFF, 0]].concat()),
+                5 => ("write_single_register", 0, [vec![6], be(start).to_vec(), be(next() as u16).to_vec()].concat()),
+                6 => (
+                    "write_multiple_coils",
+                    count,
+                    [vec![15], be(start).to_vec(), be(count).to_vec(), vec![((count + 7) / 8) as u8], vec![0x55; ((count + 7) / 8) as usize]].concat(),
+                ),
+                _ => (
+                    "write_multiple_registers",
+                    count,
+                    [vec![16], be(start).to_vec(), be(count).to_vec(), vec![(2 * count) as u8], vec![0x11; 2 * count as usize]].concat(),
+                ),
+            };
+            rows.push((name, unit, start, c, pdu));
+        }
+    }
+    let log2 = log.clone();
+    let outcome: Result<Option<(String, serde_json::Value)>, String> = rt.block_on(async move {
+        let connector = tokio_rustls::TlsConnector::from(peer_client_config(Offer::Both, Some("client_utf8role")));
+        let tcp = tokio::net::TcpStream::connect(("127.0.0.1", port)).await.map_err(|e| format!("INFRA: connect {}", e))?;
+        let name = tokio_rustls::rustls::pki_types::ServerName::try_from("test.com").unwrap();
+        let mut tls = tokio::time::timeout(Duration::from_secs(3), connector.connect(name, tcp))
+            .await
+            .map_err(|_| "INFRA: TLS handshake timed out".to_string())?
+            .map_err(|e| format!("INFRA: TLS handshake failed: {}", e))?;
+        for (i, (cb, unit, start, count, pdu)) in rows.iter().enumerate() {
+            let case = json!({"table": "authorization", "callback": cb, "unit": unit, "start": start, "count": count});
+            log2.lock().unwrap().clear();
+            let tx = 0x100 + i as u16;
+            tls.write_all(&mbap_frame(tx, *unit, pdu)).await.map_err(|e| format!("INFRA: write {}", e))?;
+            let _ = tls.flush().await;
+            let mut acc = Vec::new();
+            let mut buf = [0u8; 512];
+            let reply = loop {
+                let n = match tokio::time::timeout(Duration::from_secs(3), tls.read(&mut buf)).await {
+                    Ok(Ok(n)) if n > 0 => n,
+                    _ => return Ok(Some((format!("row {}: no reply", case), case))),
+                };
+                acc.extend_from_slice(&buf[..n]);
+                let (frames, _) = deframe_mbap(&acc);
+                if let Some(f) = frames.first() {
+                    break f.pdu.clone();
+                }
+            };
+            let calls = log2.lock().unwrap().clone();
+            let want = (cb.to_string(), *unit, *start, *count, role.to_string());
+            if calls != vec![want.clone()] {
+                return Ok(Some((
+                    format!("row {}: the authorization callbacks saw {:?}, the request was {:?}", case, calls, want),
+                    case,
+                )));
+            }
+            let deny = start % 3 == 2;
+            let fc = pdu[0];
+            if deny {
+                if reply != vec![fc | 0x80, 1] {
+                    return Ok(Some((format!("row {}: the callback answered Deny, the client received {:02X?}", case, reply), case)));
+                }
+            } else if reply.first() != Some(&fc) {
+                return Ok(Some((format!("row {}: the callback answered Allow, the client received {:02X?}", case, reply), case)));
+            }
+        }
+        Ok(None)
+    });
+    // a role that a C string cannot carry: the certificate says "oper\0tor". Whatever the library
+    // does with it, a C callback must never be shown a role the certificate does not contain
+    // (the Rust API hands its handler the string as it is)
+    let log3 = log.clone();
+    let outcome = match outcome {
+        Ok(None) => rt.block_on(async move {
+            let connector = tokio_rustls::TlsConnector::from(peer_client_config(Offer::Both, Some("client_nulrole")));
+            let tcp = tokio::net::TcpStream::connect(("127.0.0.1", port)).await.map_err(|e| format!("INFRA: connect {}", e))?;
+            let name = tokio_rustls::rustls::pki_types::ServerName::try_from("test.com").unwrap();
+            log3.lock().unwrap().clear();
+            let case = json!({"table": "authorization", "certificate_role": "oper<NUL>tor"});
+            if let Ok(Ok(mut tls)) = tokio::time::timeout(Duration::from_secs(3), connector.connect(name, tcp)).await {
+                let _ = tls.write_all(&mbap_frame(0x77, 1, &[3, 0, 0, 0, 1])).await;
+                let _ = tls.flush().await;
+                let mut buf = [0u8; 64];
+                let _ = tokio::time::timeout(Duration::from_millis(500), tls.read(&mut buf)).await;
+            }
+            let calls = log3.lock().unwrap().clone();
+            if let Some(c) = calls.iter().find(|c| c.4 != "oper\u{0}tor") {
+                return Ok(Some((
+                    format!(
+                        "the client certificate carries the role \"oper\\0tor\" (a NUL inside the string); the C authorization callback {} was shown the role {:?}",
+                        c.0, c.4
+                    ),
+                    case,
+                )));
+            }
+            Ok(None)
+        }),
+        other => other,
+    };
+    unsafe { ffi::rodbus_server_destroy(server) };
+    let n = 49u64;
+    rep.stats.evaluations += n;
+    match outcome? {
+        Some((m, c)) => fail(rep, m, c),
+        None => {
+            rep.stats.nontrivial_total += n;
+            for i in 0..n {
+                rep.stats.distinct.insert(crate::runner::hash_of(&format!("authz-{}-{}", seed, i)));
+            }
+            *rep.stats.labels.entry("authorization_rows".to_string()).or_insert(0) += n;
+        }
+    }
+    Ok(())
+}
+
 pub fn c18_tables(ctx: &Ctx) -> SearchReport {
     let mut rep = SearchReport::empty(
         "c18_tables",
-        "differential tables, every row visited: (1) 8 client operations x {12 successes with random unit/range/values, each of the 256 exception codes, malformed reply, reply of another function, silence (timeout), close, malformed MBAP header} through the Rust API and through the extern \"C\" functions against the same scripted peer: identical request bytes on the wire, identical values, error reported as the same-named ffi::RequestError value, exactly one completion callback; (2) not connected / queue full (capacity 1, silent peer) / runtime destroyed: return code and exactly one callback; (3) 4 write callbacks x WriteResult {success, 9 standard exceptions, raw 0..255}: the raw TCP client must receive the echo or [fc|0x80, code]; (4) all 36 decode levels: log classes of a C-ABI server equal those of a Rust server at the same-named level; (5) configuration pass-through: reconnect waits of a C-ABI client with retry (40 ms, 130 ms) measured through its listener; 120 serial-setting combinations (baud x data bits x parity x stop bits x flow control): termios of a pty opened through the C ABI equals termios of a pty opened through the Rust API with the same-named values; 54 TLS client and 48 TLS server configurations created through the C ABI (minimum version x versions the peer offers x certificate mode x expected name incl. the '*' switch x configured / presented certificates x authorization): created iff the Rust API accepts the same-named configuration, and a rustls peer is served iff the Rust API would serve it; max_sessions of a C-ABI server in {1,2,3,5}: one connection too many closes exactly the first. Non-trivial = every row other than a plain success.",
+        "differential tables, every row visited: (1) 8 client operations x {12 successes with random unit/range/values, each of the 256 exception codes, malformed reply, reply of another function, silence (timeout), close, malformed MBAP header} through the Rust API and through the extern \"C\" functions against the same scripted peer: identical request bytes on the wire, identical values, error reported as the same-named ffi::RequestError value, exactly one completion callback; (2) not connected / queue full (capacity 1, silent peer) / runtime destroyed: return code and exactly one callback; (3) 4 write callbacks x WriteResult {success, 9 standard exceptions, raw 0..255}: the raw TCP client must receive the echo or [fc|0x80, code]; (4) all 36 decode levels: log classes of a C-ABI server equal those of a Rust server at the same-named level; (5) configuration pass-through: reconnect waits of a C-ABI client with retry (40 ms, 130 ms) measured through its listener; 120 serial-setting combinations (baud x data bits x parity x stop bits x flow control): termios of a pty opened through the C ABI equals termios of a pty opened through the Rust API with the same-named values; 54 TLS client and 48 TLS server configurations created through the C ABI (minimum version x versions the peer offers x certificate mode x expected name incl. the '*' switch x configured / presented certificates x authorization): created iff the Rust API accepts the same-named configuration, and a rustls peer is served iff the Rust API would serve it; max_sessions of a C-ABI server in {1,2,3,5}: one connection too many closes exactly the first; 48 requests of all eight kinds to a C-ABI TLS server with authorization callbacks: exactly the callback of that kind runs, with the unit id, range or index and the (UTF-8) role of the client certificate unchanged, Deny gives exception 01 and Allow the normal reply. Non-trivial = every row other than a plain success.",
     );
     let steps: Vec<(&str, Box<dyn Fn(&mut SearchReport) -> Result<(), String>>)> = vec![
         ("client_table", Box::new({
@@ -1794,6 +2072,10 @@ pub fn c18_tables(ctx: &Ctx) -> SearchReport {
         ("serial_settings_table", Box::new(serial_settings_table)),
         ("tls_config_table", Box::new(tls_config_table)),
         ("max_sessions_passthrough", Box::new(max_sessions_passthrough)),
+        ("authz_table", Box::new({
+            let seed = ctx.seed;
+            move |r: &mut SearchReport| authz_table(r, seed)
+        })),
     ];
     for (name, f) in steps {
         let r = match guarded(|| f(&mut rep)) {
